@@ -200,6 +200,12 @@ impl Embedding {
                 _ => p2(496),
             };
         }
+        if self.name == "E15" {
+            // the top of the f64 range, both signs (C15 only: range / order conditions): the lattice
+            // values 0..3 become -1.6e308, -5.4e307, 5.4e307, 1.6e308, all finite, whose
+            // differences overflow
+            return (v as f64 - 1.5) * self.b;
+        }
         self.a + self.b * (v as f64)
     }
 }
@@ -238,6 +244,7 @@ pub fn embedding(name: &str) -> Embedding {
         // the smallest normal numbers (|x| around 2^-1021 = 4.5e-308): a product of an observation
         // with a weight below 1, or with a ratio of counts, is subnormal and loses bits (C17)
         "E14" => Embedding { name: "E14", a: 0.0, b: p2(-1021) },
+        "E15" => Embedding { name: "E15", a: 0.0, b: 1.2 * p2(1023) },
         "EM1" => Embedding { name: "EM1", a: 0.0, b: 1.0 },
         _ => panic!("unknown embedding {name}"),
     }
